@@ -264,6 +264,16 @@ def open_segments(v):
 
 
 def run_shard(shard, acc):
+    if shard['kind'] == 'fields-all-versions':
+        order = T.VERSIONS if shard['k'] % 2 == 0 else T.VERSIONS[::-1]
+        for v in order:
+            segs = list(T.segments(v, include_defective=True))[shard['k']::shard['of']]
+            _run_shard(dict(shard, kind='fields', v=v, names=segs), acc)
+        return
+    _run_shard(shard, acc)
+
+
+def _run_shard(shard, acc):
     kind, v, names, nvals, seed = shard['kind'], shard['v'], shard['names'], shard['nvals'], shard['seed']
     rnd = random.Random(seed)
     if kind == 'fields':
@@ -338,12 +348,10 @@ def plan(tier, seed):
     shards = []
     thorough = tier == 'thorough'
     nvals = 2 if thorough else 1
+    n = 32 if thorough else 12
+    for k in range(n):
+        shards.append({'kind': 'fields-all-versions', 'k': k, 'of': n, 'nvals': nvals, 'seed': seed * 1000 + k, 'all_nested': thorough})
     for v in T.VERSIONS:
-        segs = list(T.segments(v, include_defective=True))
-        n = 4 if thorough else 2
-        for c in range(n):
-            shards.append({'kind': 'fields', 'v': v, 'names': segs[c::n], 'nvals': nvals,
-                           'seed': seed * 1000 + c, 'all_nested': thorough})
         dts = list(T.complex_datatypes(v))
         shards.append({'kind': 'datatypes', 'v': v, 'names': dts, 'nvals': nvals, 'seed': seed, 'all_nested': False})
         shards.append({'kind': 'inst', 'v': v, 'names': [], 'nvals': 1, 'seed': seed, 'all_nested': False})
